@@ -101,6 +101,10 @@ class RuntimeJudge(Judge):
             return self.instance(v['c'])
         if k == 'memoryview':
             return memoryview(b'ab')
+        if k == 'range':
+            return range(v['n'])
+        if k == 'bytearray':
+            return bytearray(b'\x01\x02')
         if k == 'set':
             return set(range(v['n']))
         if k == 'intdict':
